@@ -293,7 +293,9 @@ def load_known(prop):
     if os.path.isdir(d):
         for fn in sorted(os.listdir(d)):
             if fn.endswith('.json'):
-                items += json.load(open(os.path.join(d, fn))).get('findings', [])
+                frag = json.load(open(os.path.join(d, fn)))
+                if isinstance(frag, dict):
+                    items += frag.get('findings', [])
     return {k['key']: k for k in items if k.get('property') == prop and k.get('status', 'known') == 'known'}
 
 
